@@ -280,3 +280,126 @@ Proof.
     unfold draw_post. split; [lia|]. split; [exact Hext|]. split; [exact Hb|exact Hno].
 Qed.
 End Laws.
+
+(* ---- further laws of the greedy draw (C04) ---- *)
+Section MoreLaws.
+Variable bal : string -> Z.
+
+Definition shift_drawn (k : Z) (r : draw_result) : draw_result :=
+  match r with Drawn g p => Drawn (k + g) p | r => r end.
+
+Lemma draw_inorder_shift need l left p :
+  draw_inorder bal need l left p = shift_drawn (need - left) (draw_inorder bal left l left p).
+Proof.
+  revert need left p. induction l as [|s l IH]; intros need left p; cbn [draw_inorder shift_drawn].
+  - f_equal. lia.
+  - destruct (draw bal s left p) as [g p'| |]; cbn [shift_drawn]; try reflexivity.
+    rewrite (IH need (left - g) p'), (IH left (left - g) p').
+    destruct (draw_inorder bal (left - g) l (left - g) p'); cbn [shift_drawn]; try reflexivity. f_equal. lia.
+Qed.
+
+(* in-order: a later source is asked only for what the earlier ones could not give *)
+Theorem inorder_sequential s l need p :
+  draw bal (ESInorder (s :: l)) need p =
+  match draw bal s need p with
+  | Drawn g p' => shift_drawn g (draw bal (ESInorder l) (need - g) p')
+  | r => r
+  end.
+Proof.
+  rewrite draw_inorder_eq. cbn [draw_inorder]. destruct (draw bal s need p) as [g p'| |]; try reflexivity.
+  rewrite draw_inorder_shift, draw_inorder_eq. f_equal. lia.
+Qed.
+
+Theorem inorder_empty need p : draw bal (ESInorder []) need p = Drawn 0 p.
+Proof. cbn. f_equal. lia. Qed.
+
+(* a cap is a minimum, a negative cap counts as zero *)
+Theorem cap_is_min c s need p : draw bal (ESCapped c s) need p = draw bal s (Z.max 0 (Z.min need c)) p.
+Proof. reflexivity. Qed.
+
+Lemma extends_zero p p' : extends p p' 0 -> p' = p.
+Proof.
+  intros [q [-> [Hq Hs]]]. destruct q as [|e q]; [now rewrite app_nil_r|].
+  exfalso. inversion Hq as [|? ? He Hq']; subst.
+  assert (0 <= zsum (map snd q)).
+  { clear -Hq'. induction Hq' as [|x l Hx H IH]; [cbn; lia|]. cbn [map]. rewrite zsum_cons. lia. }
+  cbn [map] in Hs. rewrite zsum_cons in Hs. lia.
+Qed.
+
+(* once the need is satisfied, later sources are untouched *)
+Theorem nothing_needed_nothing_taken s p g p' : wf_esrc s -> draw bal s 0 p = Drawn g p' -> g = 0 /\ p' = p.
+Proof.
+  intros Hwf H. destruct (draw_bounds bal s 0 p g p' Hwf ltac:(lia) H) as [Hg [Hext _]].
+  assert (g = 0) by lia. subst g. split; [reflexivity|apply (extends_zero _ _ Hext)].
+Qed.
+
+(* send-all: a bounded account is drained to exactly its limit (balance + overdraft, less what it
+   already gave), unbounded accounts and allotments are rejected, a cap turns the rest into an
+   ordinary draw of at most the cap *)
+Theorem drain_account a od p :
+  drain bal (ESAccount a (Some od)) p =
+  let g := Z.max 0 (bal a + od - pulled_of p a) in Drained g (if g =? 0 then p else p ++ [(a, g)]).
+Proof. reflexivity. Qed.
+Theorem drain_rejects_unbounded a p : drain bal (ESAccount a None) p = Rejected.
+Proof. reflexivity. Qed.
+Theorem drain_rejects_allotment items p : drain bal (ESAllot items) p = Rejected.
+Proof. reflexivity. Qed.
+Theorem drain_capped c s p :
+  drain bal (ESCapped c s) p =
+  match draw bal s (Z.max 0 c) p with
+  | Drawn g p' => Drained g p'
+  | Short a b => DrainShort a b
+  | BadAllotment => DrainBadAllotment
+  end.
+Proof. reflexivity. Qed.
+
+Fixpoint drain_inorder' (l : list esrc) (tot : Z) (p : pulled) : drain_result :=
+  match l with
+  | [] => Drained tot p
+  | s :: l' => match drain bal s p with
+               | Drained g p' => drain_inorder' l' (tot + g) p'
+               | r => r
+               end
+  end.
+
+Lemma drain_inorder_eq' l p : drain bal (ESInorder l) p = drain_inorder' l 0 p.
+Proof.
+  cbn [drain]. generalize 0 as tot. revert p.
+  induction l as [|s l IH]; intros p tot; cbn [drain_inorder']; [reflexivity|].
+  destruct (drain bal s p); try reflexivity; try apply IH.
+Qed.
+
+Theorem drain_bounds : forall s p g p',
+  wf_esrc s -> drain bal s p = Drained g p' -> 0 <= g /\ extends p p' g /\
+  (forall a M, bounded_by s a M -> pulled_of p' a <= Z.max (pulled_of p a) (bal a + M)).
+Proof.
+  induction s as [a od|l IHl|items IHi|c s IH] using esrc_ind'; intros p g p' Hwf Hd.
+  - destruct od as [od|]; [|discriminate]. rewrite drain_account in Hd. cbv zeta in Hd. injection Hd as <- <-.
+    set (g := Z.max 0 (bal a + od - pulled_of p a)). split; [lia|]. split.
+    + destruct (g =? 0) eqn:E; [replace g with 0 by lia; apply extends_refl|].
+      exists [(a, g)]. repeat split; [constructor; [cbn; lia|constructor]|cbn; lia].
+    + intros b M Hb. destruct (g =? 0) eqn:E; [lia|].
+      rewrite pulled_of_app, pulled_of_single. destruct (String.eqb a b) eqn:Eab; [|lia].
+      apply String.eqb_eq in Eab. subst b. destruct (Hb (Some od) (or_introl eq_refl)) as [k [[= <-] Hk]]. lia.
+  - rewrite drain_inorder_eq' in Hd.
+    assert (G : forall tot p0, 0 <= tot -> drain_inorder' l tot p0 = Drained g p' ->
+              tot <= g /\ extends p0 p' (g - tot) /\
+              (forall a M, bounded_by (ESInorder l) a M -> pulled_of p' a <= Z.max (pulled_of p0 a) (bal a + M))).
+    { clear Hd p. induction l as [|x l IHl']; intros tot p0 Ht Hd; cbn [drain_inorder'] in Hd.
+      - injection Hd as <- <-. split; [lia|]. split; [replace (tot - tot) with 0 by lia; apply extends_refl|]. intros; lia.
+      - inversion IHl as [|? ? Hx IHl'']; subst. cbn in Hwf. destruct Hwf as [Hwx Hwl].
+        destruct (drain bal x p0) as [gx px| | |] eqn:Ex; try discriminate.
+        destruct (Hx p0 gx px Hwx Ex) as [Hgx [Hex Hbx]].
+        destruct (IHl' IHl'' Hwl (tot + gx) px ltac:(lia) Hd) as [Hg [Hext Hb]].
+        split; [lia|]. split.
+        + replace (g - tot) with (gx + (g - (tot + gx))) by lia. eapply extends_trans; eassumption.
+        + intros a M Hbd. apply bounded_by_inorder_hd in Hbd. destruct Hbd as [Hb1 Hb2].
+          specialize (Hbx a M Hb1). specialize (Hb a M Hb2). lia. }
+    destruct (G 0 p ltac:(lia) Hd) as [Hg [Hext Hb]]. replace (g - 0) with g in Hext by lia. repeat split; assumption.
+  - discriminate.
+  - rewrite drain_capped in Hd. cbn in Hwf.
+    destruct (draw bal s (Z.max 0 c) p) as [g0 p0| |] eqn:Ed; try discriminate. injection Hd as <- <-.
+    destruct (draw_bounds bal s (Z.max 0 c) p g0 p0 Hwf ltac:(lia) Ed) as [Hg [Hext [Hb _]]].
+    split; [lia|]. split; [exact Hext|exact Hb].
+Qed.
+End MoreLaws.
